@@ -114,7 +114,8 @@ PINS = {
                                                                  "frame_enable", "frame_div")] +
            [(DU, "DummyDev", "_write"), (DU, "DummyDev", "_thread_recv")],
     "C18": _SERIALDEV,
-    "C19": _REC + [(DEV, "Device", "__init__"), (DEV, "Device", "channel_get"), (DEV, "DeviceChannel", "__init__")],
+    "C19": _REC + [(DEV, "Device", "__init__"), (DEV, "Device", "channel_get"), (DEV, "DeviceChannel", "__init__")] +
+           [(DEV, "Device", f) for f in ("channels_en", "channels_div", "en_channels_update", "div_channels_update")],   # DevRecords.lean
     "C20": _REASM + _RECV + [(PA, "Parser", "__init__"), (PR, "ParseRecv", "__init__")] + _REQ + _INFO[:6] + _STREAMENC + _STREAMDEC +
            [(PA, "Parser", f) for f in ("frame", "frame_is_ack", "frame_is_stream")] +
            [(PR, "ParseRecv", f) for f in ("_recv_cb_handle", "_cmninfo_data_encode", "_chinfo_data_encode")],
